@@ -54,6 +54,8 @@ let errc_name = function
 let sobs_text = function
   | OOk -> "ok" | OErrC e -> "e:" ^ errc_name e | OPanic -> "panic" | ONoNode -> "nonode"
   | OCount n -> "cnt" ^ string_of_int (int_of_nat n) | OBadReg -> "badreg" | OFuel -> "fuel"
+  | OData bs -> "d:" ^ hex_of_bytes bs
+  | OPos z -> "p:" ^ string_of_int (int_of_z z)
 
 (* ---------------------------------------------------------------- parsing *)
 
@@ -114,6 +116,10 @@ let sop_of (s : string) : sop =
   | ["en"; r] -> SEncode (nat r)
   | ["wk"; r] -> SWalk (nat r)
   | ["cw"; r; i; b] -> SCallerWrite (nat r, nat i, n_of_int (int_of_string b))
+  | ["lb"; r] -> SLargeBytes (nat r)
+  | ["rr"; r; k] -> SReaderRead (nat r, if k = "a" then None else Some (nat k))
+  | ["sk"; r; o; w] -> SReaderSeek (nat r, z_of_int (int_of_string o),
+                                    (match w with "s" -> SeekStart | "c" -> SeekCurrent | _ -> SeekEnd))
   | _ -> failwith ("bad op " ^ s)
 
 (* ---------------------------------------------------------------- model run *)
@@ -126,7 +132,11 @@ let run_model (script : string) : string * bool array =
   let out = Buffer.create 1024 in
   let legal = ref [] in
   List.iteri (fun j ops ->
-      let ((st', ob), ds) = sstep_full !cfg !st (sop_of ops) in
+      (* a trailing '!' = no re-dump after this step *)
+      let quiet = String.length ops > 0 && ops.[String.length ops - 1] = '!' in
+      let ops = if quiet then String.sub ops 0 (String.length ops - 1) else ops in
+      let ((st', ob), ds) =
+        if quiet then (sstep !cfg !st (sop_of ops), []) else sstep_full !cfg !st (sop_of ops) in
       st := st';
       legal := slegal st' :: !legal;
       if j > 0 then Buffer.add_char out '|';
@@ -152,16 +162,61 @@ let only_bytes_differ (a : string) (b : string) : bool =
   List.length ta = List.length tb &&
   List.for_all2 (fun x y -> x = y || (String.length x > 0 && String.length y > 0 && x.[0] = 'b' && y.[0] = 'b')) ta tb
 
-let oracle (obs : string) (legal : bool array) : string =
+(* SPEC of a handed-out reader, independent of the model: the bytes it yields from offset o are
+   content[o:], where content is what the node's first dump showed and o is moved by the reads and
+   seeks of THIS reader only — whatever other readers, accessors, matches did in between. *)
+let sub_hex (h : string) (o : int) (k : int option) : string =
+  let n = String.length h / 2 in
+  let o = min (max o 0) n in
+  let l = (match k with None -> n - o | Some k -> min k (n - o)) in
+  String.sub h (2 * o) (2 * l)
+
+let oracle (script : string) (obs : string) (legal : bool array) : string =
   let steps = String.split_on_char '|' obs in
+  let ops = Array.of_list (List.filter (fun s -> s <> "") (String.split_on_char ' ' script)) in
   let firsts : (int, string * bool) Hashtbl.t = Hashtbl.create 16 in
+  let readers : (int, string * int ref) Hashtbl.t = Hashtbl.create 8 in   (* reader register -> content hex, offset *)
   let fails = ref [] in
   let add c = if not (List.mem c !fails) then fails := c :: !fails in
   List.iteri (fun j step ->
       let is_legal = j < Array.length legal && legal.(j) in
       match String.split_on_char ';' step with
       | [] -> ()
-      | _ :: items ->
+      | out :: items ->
+        (* reader-level operations *)
+        (if j < Array.length ops then
+           let opj = ops.(j) in
+           let opj = if String.length opj > 0 && opj.[String.length opj - 1] = '!'
+             then String.sub opj 0 (String.length opj - 1) else opj in
+           match String.split_on_char ':' opj with
+           | ["lb"; n] when out = "ok" ->
+             (match Hashtbl.find_opt firsts (int_of_string n) with
+              | Some (txt, _) when String.length txt > 0 && txt.[0] = 'b' ->
+                let body = String.sub txt 1 (String.length txt - 1) in
+                let content = (match String.index_opt body '/' with Some i -> String.sub body 0 i | None -> body) in
+                Hashtbl.replace readers j (content, ref 0)
+              | _ -> ())
+           | ["rr"; r; k] ->
+             (match Hashtbl.find_opt readers (int_of_string r) with
+              | Some (content, off) when String.length out >= 2 && String.sub out 0 2 = "d:" ->
+                let got = String.sub out 2 (String.length out - 2) in
+                let want = sub_hex content !off (if k = "a" then None else Some (int_of_string k)) in
+                if is_legal && got <> want then add "reader_not_independent";
+                off := !off + String.length want / 2
+              | Some _ -> if is_legal then add "reader_not_independent"
+              | None -> ())
+           | ["sk"; r; o; w] ->
+             (match Hashtbl.find_opt readers (int_of_string r) with
+              | Some (content, off) ->
+                let abs = (match w with "s" -> int_of_string o | "c" -> !off + int_of_string o
+                                      | _ -> String.length content / 2 + int_of_string o) in
+                if abs < 0 then (if is_legal && out <> "e:other" then add "reader_not_independent")
+                else begin
+                  if is_legal && out <> "p:" ^ string_of_int abs then add "reader_not_independent";
+                  off := abs
+                end
+              | None -> ())
+           | _ -> ());
         List.iter (fun it ->
             if it = "" then () else
             try
@@ -206,7 +261,7 @@ let () =
       | [id; script; obs] ->
         (try
            let (m, legal) = run_model script in
-           let v = oracle obs legal in
+           let v = oracle script obs legal in
            (* the runner compares model and implementation only on cases the oracle passes; a case that
               fails with a known class must not hide a disagreement between the two *)
            let v = if v <> "ok" && m <> obs then v ^ ",model_disagrees" else v in
